@@ -136,44 +136,53 @@ def supportModeGenotype (post : List (List α × Rat)) : Option (List α × Rat)
 def supportAlleles (post : List (List α × Rat)) : Option (List α) :=
   (modeSupportDist post).head?.map (fun gp => uniq gp.1)
 
+/-- posterior dosage (expected copy number) of `h`: `Σ prob · dose` -/
+def dosageOf (post : List (List α × Rat)) (h : α) : Rat :=
+  (post.map (fun gp => gp.2 * ((gp.1.count h : Nat) : Rat))).sum
+
+/-- posterior probability that `h` occurs at any copy number: `Σ prob [h ∈ genotype]` -/
+def occurrenceOf (post : List (List α × Rat)) (h : α) : Rat :=
+  ((post.filter (fun gp => decide (h ∈ gp.1))).map (·.2)).sum
+
 /-- `PosteriorGenotypeDistribution.allele_frequencies(dosage)`: for every distinct haplotype (first-occurrence
     order over the flattened genotypes) the weight `Σ prob · dose` (divided by the ploidy unless `dosage`) and
     the occurrence probability `Σ prob [h ∈ genotype]` -/
 def alleleFrequencies (post : List (List α × Rat)) (ploidy : Nat) (dosage : Bool) : List (α × Rat × Rat) :=
   (uniq (post.flatMap (·.1))).map (fun h =>
-    let w : Rat := (post.map (fun gp => gp.2 * ((gp.1.count h : Nat) : Rat))).sum
-    let o : Rat := ((post.filter (fun gp => decide (h ∈ gp.1))).map (·.2)).sum
-    (h, (if dosage then w else w / (ploidy : Rat)), o))
+    let w : Rat := dosageOf post h
+    (h, (if dosage then w else w / (ploidy : Rat)), occurrenceOf post h))
 
-/-- the flag computed from the list of qualifying chains' allele arrays:
-    `mode_count = len({a.tobytes() for a in alleles})`; if more than one: `ploidy = len(alleles[0])`,
-    `allele_count` = number of distinct alleles over all of them (`reduce(mset.union, alleles)` on duplicate-free
-    arrays for assemble; `set(np.array(alleles).ravel())` for call) -/
-def incongruenceFlag (alleles : List (List α)) : Nat :=
+/-- the flag computed from the list of qualifying chains' allele arrays and the number the code calls `ploidy`:
+    `mode_count = len({a.tobytes() for a in alleles})`; if more than one: `allele_count` = number of distinct
+    alleles over all of them (`reduce(mset.union, alleles)` on duplicate-free arrays for assemble;
+    `set(np.array(alleles).ravel())` for call), flag 2 when it exceeds `ploidy` -/
+def incongruenceFlag (ploidy : Nat) (alleles : List (List α)) : Nat :=
   if (uniq alleles).length > 1 then
-    let ploidy := (alleles.head?.map List.length).getD 0
     if (uniq alleles.flatten).length > ploidy then 2 else 1
   else 0
 
+/-- `ploidy = len(alleles[0])` -/
+def firstLength (alleles : List (List α)) : Nat := (alleles.head?.map List.length).getD 0
+
 /-- `GenotypeMultiTrace.replicate_incongruence(threshold)` on the (canonical, burnt) trace: per chain the
     posterior, its mode support, kept when the support probability reaches the threshold; the arrays compared
-    are the *distinct haplotypes of the support* (so `len(alleles[0])` is a number of distinct haplotypes, not
-    the ploidy — candidate defect F10).  `none`: a chain without steps (the code raises). -/
+    are the *distinct haplotypes of the support*, so **`len(alleles[0])` is a number of distinct haplotypes, not
+    the ploidy** (candidate defect F10).  `none`: a chain without steps (the code raises). -/
 def replicateIncongruence (thr : Rat) (t : RawTrace α) : Option Nat :=
   if t.any (fun ch => ch.isEmpty) then none else
   let alleles := t.filterMap (fun ch =>
     let post := posteriorOf ch
     if thr ≤ supportProb post then supportAlleles post else none)
-  some (incongruenceFlag alleles)
+  some (incongruenceFlag (firstLength alleles) alleles)
 
 /-- `GenotypeAllelesMultiTrace.replicate_incongruence(threshold)`: the arrays compared are the chains' *mode
-    genotypes* (`mode(genotype_support=True)[0]`, length = ploidy, dosage included) -/
+    genotypes* (`mode(genotype_support=True)[0]`, dosage included), so here `len(alleles[0])` is the ploidy -/
 def callReplicateIncongruence (thr : Rat) (t : RawTrace α) : Option Nat :=
   if t.any (fun ch => ch.isEmpty) then none else
   let alleles := t.filterMap (fun ch =>
     let post := posteriorOf ch
     if thr ≤ supportProb post then (supportModeGenotype post).map (·.1) else none)
-  some (incongruenceFlag alleles)
+  some (incongruenceFlag (firstLength alleles) alleles)
 
 end generic
 
@@ -199,11 +208,12 @@ def scatter (size : Nat) (pairs : List (Nat × Rat)) : Option (List Rat) :=
 def asArray (post : List (List Nat × Rat)) (nAlleles ploidy : Nat) : Option (List Rat) :=
   scatter (cwr nAlleles ploidy) (post.map (fun gp => (genotypeIndex gp.1, gp.2)))
 
-/-- `relabel(labels)`: `labels[genotypes]`, `n_allele = labels.max() + 1`; `none`: an allele without label -/
-def relabel (labels : List Nat) (t : RawTrace Nat) : Option (RawTrace Nat × Nat) :=
+/-- `relabel(labels, n_allele=None)`: `labels[genotypes]`, `n_allele` defaulting to `labels.max() + 1`;
+    `none`: an allele without label -/
+def relabel (labels : List Nat) (nAllele : Option Nat) (t : RawTrace Nat) : Option (RawTrace Nat × Nat) :=
   if t.any (fun ch => ch.any (fun g => g.any (fun a => decide (labels.length ≤ a)))) then none else
   some (t.map (fun ch => ch.map (fun g => g.map (fun a => labels.getD a 0))),
-        labels.foldl max 0 + 1)
+        nAllele.getD (labels.foldl max 0 + 1))
 
 /-- `PedigreeAllelesMultiTrace.individual(index)`: `ploidy = (sample_trace[0, 0] >= 0).sum()`, then
     `sample_trace[:, :, 0:ploidy]` (rows are padded with −1 at the end) -/
